@@ -202,6 +202,29 @@ theorem hmac_chunks_eq_spec (key : Bytes) (hk : key.length = 32) (cs : List Byte
     Model.Core.hmacChunks Spec.Sha512.sha512 key cs = .ok (Spec.Hmac.hmacSha512256 key cs.flatten) := by
   rw [Proofs.Core.hmacChunks_eq]; exact Proofs.Core.hmac_eq_spec_le key _ (by omega)
 
+/-- a key that is PRESENT but out of range — in particular the empty one, `Some(&[])` / an empty `Vec` — is refused by the one-shot
+function and by the incremental `init` alike, whatever the message, the chunking and the output length: the two interfaces
+cannot disagree on it (run: harness op `generichash_emptykey`, every form of the classic and the object API) -/
+theorem generichash_bad_key_refused_by_both (outLen : Nat) (input key : Bytes) (salt personal : Option Bytes)
+    (hk : key.length < 16 ∨ 64 < key.length) :
+    Model.Blake2b.generichash outLen input (some key) = .err ∧
+      Model.Blake2b.generichashInit (some key) outLen salt personal = .err := by
+  have hv : Model.Blake2b.validateKey (some key) = false := by
+    simp only [Model.Blake2b.validateKey]
+    rcases hk with h | h <;> simp [h]
+  constructor
+  · unfold Model.Blake2b.generichash; split
+    · rfl
+    · simp [hv]
+  · unfold Model.Blake2b.generichashInit; split
+    · rfl
+    · simp [hv]
+
+/-- non-vacuity and the case of the seeded change: the empty key -/
+example : Model.Blake2b.generichash 32 [1, 2, 3] (some []) = .err ∧
+    Model.Blake2b.generichashInit (some []) 32 none none = .err :=
+  generichash_bad_key_refused_by_both 32 [1, 2, 3] [] none none (Or.inl (by decide))
+
 end DryocVerif.Properties.C08
 
 section AxiomCheck
